@@ -25,7 +25,7 @@ QUICK_CAP = 400          # quick tier: lines kept per (build, reduction function
 QUICK_CAP_OTHER = 120    # ... and per (build, other function, edition)
 QUICK_CAP_OP = {"wwNAF": 700, "priBaseMod": 260}    # functions whose classes are (window width / count) x operand pattern
 THOROUGH_CAP = {"rel": 2000, "w32": 1500, "fast": 600, "dbg": 600}
-SHARD = 60000            # lines per TLC run
+SHARD = 70000            # lines per TLC run
 # functions whose specification is a Euclid / square-and-multiply loop over BigNat (seconds per line on long operands):
 # beyond HEAVY_N words at most HEAVY_KEEP lines per (build, function, edition, length) are validated
 HEAVY_OPS = {"zzInvMod", "zzDivMod", "zzAlmostInvMod", "zzGCD", "zzExGCD", "zzLCM", "zzIsCoprime", "zzJacobi", "zzPowerMod",
